@@ -436,6 +436,32 @@ fn replay(env: &Env, case: &Value) {
     }
 }
 
+/// One random cluster of 5..=12 nodes in 1..=3 datacenters with up to 4 racks each (some nodes rack-less,
+/// occasionally DC-less), 1..=3 distinct random full-range tokens per node (at most 24 ring entries).
+fn sampled_cluster(seed: u64) -> Concrete {
+    let mut rng = vcore::Rng::new(seed);
+    let n = 5 + rng.below(8) as usize;
+    let ndc = 1 + rng.below(3) as usize;
+    let nrack = 1 + rng.below(4) as usize;
+    let mut used: BTreeSet<i64> = BTreeSet::new();
+    let mut nodes = Vec::new();
+    for _ in 0..n {
+        let dc = if rng.below(20) == 0 { None } else { Some(format!("dc{}", rng.below(ndc as u64))) };
+        let rack = if dc.is_none() || rng.below(10) == 0 { None } else { Some(format!("r{}", rng.below(nrack as u64))) };
+        let vn = if n > 8 { 1 + rng.below(2) } else { 1 + rng.below(3) };
+        let mut tokens = Vec::new();
+        for _ in 0..vn {
+            let mut t = rng.next_u64() as i64;
+            while t == i64::MIN || !used.insert(t) {
+                t = rng.next_u64() as i64;
+            }
+            tokens.push(t);
+        }
+        nodes.push(topo::CNode { dc, rack, tokens });
+    }
+    Concrete { nodes }
+}
+
 /// Which strategies / tokens / extras are spent on which class of topology.
 fn params_for(t: &Topo, thorough: bool) -> Params {
     let (slots, nodes) = (t.slots(), t.n());
@@ -490,7 +516,11 @@ fn main() {
     } else {
         EnumBounds { max_slots: 5, max_nodes: 4, max_dcs: 3, max_racks: 3, extremes_upto_slots: 3, dup_upto_slots: 3, node_cap: |_| usize::MAX }
     };
-    let topos = topo::enumerate(&bounds);
+    let mut topos = topo::enumerate(&bounds);
+    if !thorough {
+        // quick: the 5-slot x 4-node rings are taken with at most 2 datacenters (3-DC ones: thorough tier)
+        topos.retain(|t| !(t.slots() >= 5 && t.n() >= 4 && t.dc_count() >= 3));
+    }
     let n_topos = topos.len();
     // the second name spelling (shakes hash-map iteration orders) is spent on the rings with <= 4 slots
     let spellings_for = |t: &Topo| -> &'static [usize] { if thorough && t.slots() <= 4 { &[0, 1] } else { &[0] } };
@@ -544,6 +574,21 @@ fn main() {
             }
         }
     });
+    // SAMPLED sweep at the scale the property names (up to 12 nodes x 3 DCs x 4 racks, vnodes, random
+    // full-range tokens): seeded, labelled sampled, not what the coverage claim rests on.
+    {
+        let n_big = if thorough { 1500 } else { 40 };
+        let seed = r.args.seed;
+        let p = Params { family: Family { rf_extra: 1, absent_rfs: vec![1] }, sparse_variants: 1, dense_tokens: false, ask_never_mentioned_dc: false };
+        let p_ref = &p;
+        let triples_before = r.evaluations.load(Ordering::Relaxed);
+        vcore::par::for_range(r.args.jobs, n_big, |i| {
+            let c = sampled_cluster(seed.wrapping_mul(0x9E37_79B9).wrapping_add(i));
+            run_topology(env_ref, &c, "dcX", (n_topos as u64) * 4 + i, p_ref, None);
+        });
+        r.counters.add("sampled_large_clusters", n_big);
+        r.counters.add("sampled_large_cluster_triples", r.evaluations.load(Ordering::Relaxed) - triples_before);
+    }
     sink.flush(&r);
     r.counters.add("topologies", n_topos as u64);
     r.counters.add("topologies_with_a_token_owned_twice", topos.iter().filter(|t| matches!(t.layout, topo::Layout::Dup(_))).count() as u64);
@@ -556,9 +601,9 @@ fn main() {
         "bounds",
         json!({"max_token_slots": bounds.max_slots, "max_nodes": bounds.max_nodes, "max_dcs": bounds.max_dcs, "max_racks_per_dc": bounds.max_racks,
         "strategy_family": "Local, Other, Simple RF 0..nodes+e, NTS: every RF 0..dc size+e on every subset of ring DCs x {no entry | RF in A} for one DC absent from the ring; (e, A) by topology class - see params_for()",
-        "name_spellings": if thorough { "2 for rings with <= 4 slots, 1 above" } else { "1" }, "node_cap_by_slots": if thorough { "<=5 slots: 5 nodes; 6 slots: 4 nodes; 7 slots: 3 nodes" } else { "none" }}),
+        "name_spellings": if thorough { "2 for rings with <= 4 slots, 1 above" } else { "1" }, "node_cap_by_slots": if thorough { "<=5 slots: 5 nodes; 6 slots: 4 nodes; 7 slots: 3 nodes" } else { "5 slots x 4 nodes only with <= 2 datacenters" }}),
     );
-    r.set_rule("E-ENUM. evaluations = (topology, strategy, query token) triples; for each, the unrestricted replica set and one per datacenter (ring DCs, a DC absent from the ring, for small rings also a never-mentioned DC) is examined through len/is_empty, iteration, nth+next, choose_filtered (owned RNG: every index, and a predicate rejecting each member), ring-ordered view, on 3+ locators (nothing / everything / sparse sets precomputed), plus get_token_endpoints by keyspace name; compared with cqlref::placement. Topologies: every canonical (slot sequence x dc/rack placement incl. DC-less and rack-less nodes) within bounds, plus boundary-token and duplicate-token layouts for the small ones, plus the repo's pinned 7-node ring. distinct_nontrivial = triples whose placement has >= 2 nodes and is not the plain ring prefix of that length.");
+    r.set_rule("E-ENUM. evaluations = (topology, strategy, query token) triples; for each, the unrestricted replica set and one per datacenter (ring DCs, a DC absent from the ring, for small rings also a never-mentioned DC) is examined through len/is_empty, iteration, nth+next, choose_filtered (owned RNG: every index, and a predicate rejecting each member), ring-ordered view, on 3+ locators (nothing / everything / sparse sets precomputed), plus get_token_endpoints by keyspace name; compared with cqlref::placement. Topologies: every canonical (slot sequence x dc/rack placement incl. DC-less and rack-less nodes) within bounds, plus boundary-token and duplicate-token layouts for the small ones, plus the repo's pinned 7-node ring, plus a seeded SAMPLED sweep of clusters of 5..12 nodes x <= 3 DCs x <= 4 racks with random full-range tokens (counter sampled_large_clusters; the coverage claim does not rest on it). distinct_nontrivial = triples whose placement has >= 2 nodes and is not the plain ring prefix of that length.");
     r.set_exhaustive(true);
     r.assume("a node without a rack belongs to one shared 'no rack' rack of its datacenter (counted and walked consistently); a node without a datacenter is in no datacenter");
     r.assume("rings where two nodes own the same token: ring order between the owners is undefined - only per-DC NTS answers (duplicates in different DCs) and the mutual agreement of len/iteration/nth/choose are checked there");
